@@ -780,6 +780,17 @@ def _validate(hdef, case, vals, seed, stats, use_defaults=True):
     if oc[0] == "abort":
         return
     vals2 = dict(hc.values)
+    if oc[0] == "ok":
+        # the plain-float run is an ordinary concrete test of the real code: its verdict does not
+        # depend on whether the exact-rational twin below gets through
+        for n, ok in hc.obligations:
+            # (the deterministic default point always counts)
+            if not ok and (hdef.concrete_alarms or vals is not None or use_defaults):
+                stats["violations"].append({
+                    "harness": hdef.name, "case": case, "obligation": n, "values": dict(hc.values),
+                    "detail": "obligation fails in a plain-float execution of the real code at a "
+                              "translator-validation point (found outside the solver)"})
+                break
     hf, of = _run_mode(hdef, case, "fold", vals2, seed)
     if oc[0] == "raise" or of[0] == "raise":
         if oc[0] != of[0]:
@@ -792,14 +803,6 @@ def _validate(hdef, case, vals, seed, stats, use_defaults=True):
     if of[0] == "abort":
         return
     stats["validated_points"] += 1
-    for n, ok in hc.obligations:
-        # (the deterministic default point is an ordinary concrete test and always counts)
-        if not ok and (hdef.concrete_alarms or vals is not None or use_defaults):
-            stats["violations"].append({
-                "harness": hdef.name, "case": case, "obligation": n, "values": dict(hc.values),
-                "detail": "obligation fails in a plain-float execution of the real code at a "
-                          "translator-validation point (found outside the solver)"})
-            break
     co = dict(hc.observed)
     for name, v in hf.observed:
         if name not in co:
